@@ -126,6 +126,36 @@ func runCrypt(c cryptCase) pbt.Result {
 	if !bytes.Equal(blob1, blob2) {
 		return merge(res, pbt.Failf("%s: two encryptions of the same input differ: %x vs %x", c.API, blob1, blob2))
 	}
+	// callers loop over multihashes with one scratch buffer for the passphrase: the buffer's earlier content
+	// must not matter. Same buffer, first the passphrase, then overwritten in place with another one.
+	if c.API == "aes" && len(c.Pass) > 0 {
+		other := append([]byte(nil), c.Pass...)
+		other[len(other)-1] ^= 0x5a
+		// references first, each with a slice of its own; the last call before the buffer is used carries the
+		// other passphrase, so that whatever the library remembers from call to call changes when the buffer comes
+		n1, e1, _ := dhash.EncryptAES(c.Payload, append([]byte(nil), c.Pass...))
+		nf, ef, _ := dhash.EncryptAES(c.Payload, append([]byte(nil), other...))
+		buf := append([]byte(nil), c.Pass...)
+		if _, _, err := dhash.EncryptAES(c.Payload, buf); err != nil {
+			return merge(res, pbt.Failf("EncryptAES: %v", err))
+		}
+		copy(buf, other) // in place
+		nb, eb, err := dhash.EncryptAES(c.Payload, buf)
+		if err != nil || !bytes.Equal(nb, nf) || !bytes.Equal(eb, ef) {
+			return merge(res, pbt.Failf("EncryptAES with a passphrase held in a buffer that held another passphrase during the previous call differs from the encryption with a fresh slice of the same passphrase (err %v)", err))
+		}
+		if _, _, err := dhash.EncryptAES(c.Payload, append([]byte(nil), other...)); err != nil {
+			return merge(res, pbt.Failf("EncryptAES: %v", err))
+		}
+		buf2 := append([]byte(nil), c.Pass...)
+		if _, _, err := dhash.EncryptAES(c.Payload, buf2); err != nil {
+			return merge(res, pbt.Failf("EncryptAES: %v", err))
+		}
+		copy(buf2, other)
+		if pt, err := dhash.DecryptAES(n1, e1, buf2); err == nil {
+			return merge(res, pbt.Failf("DecryptAES with a different passphrase (held in a buffer that held the right one during the previous call) returned data %x instead of an error", pt))
+		}
+	}
 	if len(blob1) != 12+len(c.Payload)+16 {
 		return merge(res, pbt.Failf("%s: encrypted length %d for payload %d", c.API, len(blob1), len(c.Payload)))
 	}
@@ -200,7 +230,7 @@ func merge(base, f pbt.Result) pbt.Result {
 
 func TestC12_Crypto(t *testing.T) {
 	pbt.Run(t, pbt.Config{Prop: "C12", Unit: "TestC12_Crypto",
-		Rule: "API in {EncryptAES/DecryptAES, value key, metadata} x payload 0..4096 B x passphrase (multihash or raw 0..128 B) x tamper in {none, truncate nonce||ct to any length, flip any bit, append bytes, different passphrase}; oracle: round trip, two encryptions byte-identical, length = 12+len+16, every tampered input gives an error and no data, no panic. Non-trivial: tampered; distinct by case.",
+		Rule: "API in {EncryptAES/DecryptAES, value key, metadata} x payload 0..4096 B x passphrase (multihash or raw 0..128 B) x tamper in {none, truncate nonce||ct to any length, flip any bit, append bytes, different passphrase}; oracle: round trip, two encryptions byte-identical (also when the passphrase sits in a buffer that held another passphrase during the previous call), length = 12+len+16, every tampered input gives an error and no data, no panic. Non-trivial: tampered; distinct by case.",
 	}, genCrypt, runCrypt)
 }
 
@@ -379,6 +409,13 @@ func genIndex(t *rapid.T) indexCase {
 	for i := 0; i < ne; i++ {
 		e := entry{MH: rapid.IntRange(0, nm-1).Draw(t, "emh"), Provider: rapid.IntRange(0, 7).Draw(t, "eprov"),
 			CtxID: gen.Bytes(0, 64).Draw(t, "ectx"), Metadata: gen.Bytes(1, 200).Draw(t, "emd")}
+		if rapid.IntRange(0, 5).Draw(t, "bigmd") == 0 {
+			// up to the largest metadata an advertisement may carry
+			e.Metadata = gen.BoundaryBytes(512, 840, 1000, 1023).Draw(t, "emdbig")
+			if len(e.Metadata) == 0 {
+				e.Metadata = []byte{1}
+			}
+		}
 		k := fmt.Sprintf("%d/%d/%x", e.MH, e.Provider, e.CtxID)
 		// one metadata per (provider, context): the value key addresses the metadata
 		k2 := fmt.Sprintf("%d/%x", e.Provider, e.CtxID)
@@ -674,7 +711,7 @@ func runIndex(c indexCase) pbt.Result {
 
 func TestC12_Index(t *testing.T) {
 	pbt.Run(t, pbt.Config{Prop: "C12", Unit: "TestC12_Index", TrackCurrent: true,
-		Rule:        "indexes of 1..5 multihashes -> 1..8 (provider, context ID 0..64 B, metadata 1..200 B) entries, stored through CreateValueKey/EncryptValueKey/EncryptMetadata/SecondMultihash/SHA256 into an independent in-memory dhstore (reached through the DHStoreAPI interface or through the library's HTTP dhstore client against a loopback server), plus 0..3 garbage value keys (0..40 random bytes) placed first; in one case of three a drawn subset of the entries has its metadata deleted again (the value key stays, as after a removal by context ID); in one case of three the index changes after the client has answered two rounds of queries (entries re-advertised with new metadata, metadata removed) and is queried again with the same client; metadata-only mode or provider info from a loopback /providers endpoint; oracle: Find(mh) returns exactly the indexed multiset (entries whose metadata is still stored) for each multihash, nothing for a multihash that is not indexed, never an error or crash. Non-trivial: >= 2 providers for one multihash, or garbage keys present; distinct by case.",
+		Rule:        "indexes of 1..5 multihashes -> 1..8 (provider, context ID 0..64 B, metadata 1..200 B) entries (metadata occasionally up to the advertisement limit of 1024 B), stored through CreateValueKey/EncryptValueKey/EncryptMetadata/SecondMultihash/SHA256 into an independent in-memory dhstore (reached through the DHStoreAPI interface or through the library's HTTP dhstore client against a loopback server), plus 0..3 garbage value keys (0..40 random bytes) placed first; in one case of three a drawn subset of the entries has its metadata deleted again (the value key stays, as after a removal by context ID); in one case of three the index changes after the client has answered two rounds of queries (entries re-advertised with new metadata, metadata removed) and is queried again with the same client; metadata-only mode or provider info from a loopback /providers endpoint; oracle: Find(mh) returns exactly the indexed multiset (entries whose metadata is still stored) for each multihash, nothing for a multihash that is not indexed, never an error or crash. Non-trivial: >= 2 providers for one multihash, or garbage keys present; distinct by case.",
 		Assumptions: []string{"metadata is >= 1 byte (the client documents empty metadata as 'no metadata')", "one metadata per (provider, context ID) pair, as the value key addresses the metadata", "providers have no extended providers (expansion is C17)"},
 	}, genIndex, runIndex)
 }
